@@ -1180,4 +1180,227 @@ theorem validateAll_valid {env : Env} {L sp : Refdb} {blocked delegates : List K
         · exact (setInsert_spec k l0.valid hnd).1
         · exact hnd
 
+
+/-! ### C02: the delegates with valid signed refs, exactly -/
+
+/-- **The reading of "a delegate has valid signed refs" (DESIGN §6 C02)**, for a delegate `d` considered by
+the fetch: if `d` is not part of this fetch (its signed refs are not loaded: on the `refs_at` path a delegate
+that was not announced), it is valid iff a `rad/sigrefs` is stored for it. Otherwise it is valid iff signed
+refs are found for it (the offered tip, else the stored one), they load and verify, and they pass every check
+of this fetch (`verdictOf … = validated`: tip not behind/diverged, `rad/sigrefs` offered, blob does not list
+`rad/sigrefs`, an offered `rad/id` is signed); when the offered tip is merely *behind* the stored one the
+stored refs stay valid. A delegate whose offered data fails a check in this fetch is NOT valid, even if
+valid refs are stored for it (`valid_delegates.remove`). -/
+def delegateValid (env : Env) (L : Refdb) (stage : Stage) (blocked delegates : List Key) (d : Key) : Bool :=
+  let stored := (L.get (d, env.nSig)).isSome
+  if stage.loadKeys.contains d then
+    match cachedLoad env L stage.sp d with
+    | .ok (some (tip, b)) =>
+      match verdictOf env L stage.sp blocked delegates d tip b with
+      | .validated => true
+      | .stale => stored
+      | .skipped => stored
+      | _ => false
+    | _ => false
+  else stored
+
+def validDelegates (env : Env) (L : Refdb) (stage : Stage) (blocked delegates : List Key) : List Key :=
+  delegates.filter (delegateValid env L stage blocked delegates)
+
+theorem insertKey_mem_self {α : Type} (k : Key) (v : α) (m : List (Key × α)) : (k, v) ∈ insertKey k v m := by
+  induction m with
+  | nil => simp [insertKey]
+  | cons x m ih =>
+    obtain ⟨kx, vx⟩ := x
+    unfold insertKey
+    split
+    · simp
+    · split
+      · simp
+      · exact List.mem_cons_of_mem _ ih
+
+theorem insertKey_keeps_key {α : Type} (k : Key) (v : α) {m : List (Key × α)} {e : Key × α} (h : e ∈ m) :
+    ∃ v', (e.1, v') ∈ insertKey k v m := by
+  induction m with
+  | nil => simp at h
+  | cons x m ih =>
+    obtain ⟨kx, vx⟩ := x
+    unfold insertKey
+    split
+    · exact ⟨e.2, List.mem_cons_of_mem _ h⟩
+    · split
+      · rename_i heq
+        rcases List.mem_cons.mp h with h | h
+        · subst h; exact ⟨v, by simp [heq]⟩
+        · exact ⟨e.2, List.mem_cons_of_mem _ h⟩
+      · rcases List.mem_cons.mp h with h | h
+        · subst h; exact ⟨vx, List.mem_cons_self ..⟩
+        · obtain ⟨v', hv'⟩ := ih h
+          exact ⟨v', List.mem_cons_of_mem _ hv'⟩
+
+/-- `RemoteRefs::load`, completeness: every requested remote either has no signed refs anywhere or is in
+the result; and the result only contains requested remotes. -/
+theorem remoteRefsLoad_complete {env : Env} {L sp : Refdb} (ks : List Key) (acc sr : SignedRefs)
+    (h : remoteRefsLoad env L sp ks acc = .ok sr) :
+    (∀ k ∈ ks, cachedLoad env L sp k = .ok none ∨ ∃ v, (k, v) ∈ sr) ∧
+    (∀ e ∈ acc, ∃ v, (e.1, v) ∈ sr) ∧
+    (∀ e ∈ sr, e.1 ∈ ks ∨ ∃ v, (e.1, v) ∈ acc) := by
+  induction ks generalizing acc with
+  | nil =>
+    simp only [remoteRefsLoad] at h
+    injection h with h; subst h
+    exact ⟨by simp, fun e he => ⟨e.2, he⟩, fun e he => Or.inr ⟨e.2, he⟩⟩
+  | cons k ks ih =>
+    simp only [remoteRefsLoad] at h
+    split at h
+    · cases h
+    · rename_i hk
+      obtain ⟨h1, h2, h3⟩ := ih acc h
+      refine ⟨?_, h2, ?_⟩
+      · intro k' hk'
+        rcases List.mem_cons.mp hk' with rfl | hk'
+        · exact Or.inl hk
+        · exact h1 k' hk'
+      · intro e he
+        rcases h3 e he with h | h
+        · exact Or.inl (List.mem_cons_of_mem _ h)
+        · exact Or.inr h
+    · rename_i v hv
+      obtain ⟨h1, h2, h3⟩ := ih _ h
+      refine ⟨?_, ?_, ?_⟩
+      · intro k' hk'
+        rcases List.mem_cons.mp hk' with rfl | hk'
+        · exact Or.inr (h2 (k', v) (insertKey_mem_self k' v acc))
+        · exact h1 k' hk'
+      · intro e he
+        obtain ⟨v', hv'⟩ := insertKey_keeps_key k v he
+        exact h2 (e.1, v') hv'
+      · intro e he
+        rcases h3 e he with h | ⟨w, hw⟩
+        · exact Or.inl (List.mem_cons_of_mem _ h)
+        · rcases mem_insertKey hw with heq | hin
+          · injection heq with h1' _
+            exact Or.inl (h1' ▸ List.mem_cons_self ..)
+          · exact Or.inr ⟨w, hin⟩
+
+theorem cachedLoad_none_not_stored {env : Env} {L sp : Refdb} {k : Key}
+    (h : cachedLoad env L sp k = .ok none) : L.get (k, env.nSig) = none := by
+  unfold cachedLoad at h
+  split at h
+  · unfold localLoad at h
+    split at h
+    · assumption
+    · rename_i t _
+      cases hl : loadAt env k t with
+      | error e => rw [hl] at h; cases h
+      | ok v => rw [hl] at h; simp [Except.map] at h
+  · rename_i t _
+    cases hl : loadAt env k t with
+    | error e => rw [hl] at h; cases h
+    | ok v => rw [hl] at h; simp [Except.map] at h
+
+/-- What makes a processed remote count as good, given the loop's verdict on it. -/
+def verdictGood (stored : Bool) : Verdict → Prop
+  | .validated => True
+  | .stale => stored = true
+  | .skipped => stored = true
+  | _ => False
+
+/-- `valid_delegates` is, at every point of the validation loop, made of delegates that are stored if still
+to be processed, and `good` if already processed or not part of the loop. -/
+theorem validateAll_valid_exact {env : Env} {L sp : Refdb} {blocked delegates : List Key}
+    (good : Key → Prop) (sr : SignedRefs) (l0 l : Loop)
+    (h : validateAll env L sp blocked delegates l0 sr = some l)
+    (hsorted : sr.Pairwise (fun a b => a.1 < b.1))
+    (hgood : ∀ e ∈ sr, verdictGood (L.get (e.1, env.nSig)).isSome
+      (verdictOf env L sp blocked delegates e.1 e.2.1 e.2.2) → good e.1)
+    (hinv : ∀ x ∈ l0.valid, ((∃ e ∈ sr, e.1 = x) → (L.get (x, env.nSig)).isSome = true) ∧
+      ((¬ ∃ e ∈ sr, e.1 = x) → good x))
+    (hdel : ∀ x ∈ l0.valid, delegates.contains x = true)
+    (hnd : l0.valid.Nodup) :
+    (∀ x ∈ l.valid, good x ∧ delegates.contains x = true) ∧ l.valid.Nodup := by
+  induction sr generalizing l0 with
+  | nil =>
+    simp only [validateAll] at h; injection h with h; subst h
+    exact ⟨fun x hx => ⟨(hinv x hx).2 (by simp), hdel x hx⟩, hnd⟩
+  | cons e sr ih =>
+    obtain ⟨k, tip, b⟩ := e
+    rw [List.pairwise_cons] at hsorted
+    have hk_notin : ¬ ∃ e ∈ sr, e.1 = k := by
+      rintro ⟨e, he, heq⟩
+      have := hsorted.1 e he
+      rw [heq] at this; exact Nat.lt_irrefl _ this
+    have hgood' : ∀ e ∈ sr, verdictGood (L.get (e.1, env.nSig)).isSome
+        (verdictOf env L sp blocked delegates e.1 e.2.1 e.2.2) → good e.1 :=
+      fun e he => hgood e (List.mem_cons_of_mem _ he)
+    have hgk := hgood (k, tip, b) (List.mem_cons_self ..)
+    simp only at hgk
+    -- an element different from `k` keeps its status
+    have keep : ∀ x, x ≠ k → (((∃ e ∈ (k, tip, b) :: sr, e.1 = x) → (L.get (x, env.nSig)).isSome = true) ∧
+        ((¬ ∃ e ∈ (k, tip, b) :: sr, e.1 = x) → good x)) →
+        (((∃ e ∈ sr, e.1 = x) → (L.get (x, env.nSig)).isSome = true) ∧ ((¬ ∃ e ∈ sr, e.1 = x) → good x)) := by
+      intro x hxk ⟨h1, h2⟩
+      refine ⟨fun ⟨e, he, heq⟩ => h1 ⟨e, List.mem_cons_of_mem _ he, heq⟩, fun hn => h2 ?_⟩
+      rintro ⟨e, he, heq⟩
+      rcases List.mem_cons.mp he with rfl | he
+      · exact hxk heq.symm
+      · exact hn ⟨e, he, heq⟩
+    -- `k` itself, when it stays in `valid` and the verdict leaves it good if stored
+    have stay : (verdictGood (L.get (k, env.nSig)).isSome (verdictOf env L sp blocked delegates k tip b) ↔
+          (L.get (k, env.nSig)).isSome = true) →
+        ∀ x ∈ l0.valid, (((∃ e ∈ sr, e.1 = x) → (L.get (x, env.nSig)).isSome = true) ∧
+          ((¬ ∃ e ∈ sr, e.1 = x) → good x)) := by
+      intro hiff x hx
+      by_cases hxk : x = k
+      · subst hxk
+        have hst := (hinv x hx).1 ⟨_, List.mem_cons_self .., rfl⟩
+        exact ⟨fun _ => hst, fun _ => hgk (hiff.mpr hst)⟩
+      · exact keep x hxk (hinv x hx)
+    simp only [validateAll] at h
+    cases hv : verdictOf env L sp blocked delegates k tip b with
+    | fail => rw [hv] at h; cases h
+    | skipped =>
+      rw [hv] at h
+      exact ih l0 h hsorted.2 hgood' (stay (by rw [hv]; exact Iff.rfl)) hdel hnd
+    | stale =>
+      rw [hv] at h
+      exact ih l0 h hsorted.2 hgood' (stay (by rw [hv]; exact Iff.rfl)) hdel hnd
+    | invalid =>
+      rw [hv] at h
+      by_cases hd : delegates.contains k = true
+      · simp only [hd, if_true] at h
+        apply ih _ h hsorted.2 hgood'
+        · intro x hx
+          have hxk : x ≠ k := fun heq => ((List.Nodup.mem_erase_iff hnd).mp hx).1 heq
+          exact keep x hxk (hinv x (List.mem_of_mem_erase hx))
+        · intro x hx; exact hdel x (List.mem_of_mem_erase hx)
+        · exact hnd.erase k
+      · simp only [hd] at h
+        apply ih _ h hsorted.2 hgood' _ hdel hnd
+        intro x hx
+        have hxk : x ≠ k := fun heq => hd (heq ▸ hdel x hx)
+        exact keep x hxk (hinv x hx)
+    | validated =>
+      rw [hv] at h hgk
+      by_cases hd : delegates.contains k = true
+      · simp only [hd, if_true] at h
+        apply ih _ h hsorted.2 hgood'
+        · intro x hx
+          by_cases hxk : x = k
+          · subst hxk
+            exact ⟨fun hex => absurd hex hk_notin, fun _ => hgk trivial⟩
+          · rcases (setInsert_spec k l0.valid hnd).2 x hx with h' | h'
+            · exact absurd h' hxk
+            · exact keep x hxk (hinv x h')
+        · intro x hx
+          rcases (setInsert_spec k l0.valid hnd).2 x hx with h' | h'
+          · subst h'; exact hd
+          · exact hdel x h'
+        · exact (setInsert_spec k l0.valid hnd).1
+      · simp only [hd] at h
+        apply ih _ h hsorted.2 hgood' _ hdel hnd
+        intro x hx
+        have hxk : x ≠ k := fun heq => hd (heq ▸ hdel x hx)
+        exact keep x hxk (hinv x hx)
+
 end HeartwoodModel.Fetch
